@@ -206,6 +206,13 @@ fn c06_cfg(metric: Metric, dim: usize, depth: usize, rejected: bool) -> TxnCfg {
     }
 }
 
+fn c06_metric_change_cfg(src: Metric, targets: &[Metric], depth: usize) -> TxnCfg {
+    let mut c = c18_cfg_from(src, 3, targets, depth, true);
+    c.obs = TxnObs { staleness: true, ..Default::default() };
+    c.label = format!("{}-metric-change-depth{depth}", src.short());
+    c
+}
+
 pub fn c06(tier: Tier) -> i32 {
     let mut report = Report::new("C06", tier, "model_checking");
     report.assume("LMDB/heed transactions; roaring; rayon");
@@ -214,10 +221,14 @@ pub fn c06(tier: Tier) -> i32 {
         Tier::Quick => {
             runs.push((c06_cfg(Metric::Euclidean, 2, 6, false), caps(20)));
             runs.push((c06_cfg(Metric::BqCosine, 2, 6, false), caps(20)));
+            // "immediately after a successful build the reader opens" also after a metric change on
+            // a populated, built index (nothing pending, automatic tree count)
+            runs.push((c06_metric_change_cfg(Metric::Euclidean, &[Metric::Cosine, Metric::BqEuclidean], 3), caps(10)));
         }
         Tier::Thorough => {
             for m in M7 {
                 runs.push((c06_cfg(m, 2, 8, false), caps(150)));
+                runs.push((c06_metric_change_cfg(m, &M7, 4), caps(60)));
             }
         }
     }
@@ -484,10 +495,17 @@ pub fn c07(tier: Tier) -> i32 {
 // ------------------------------------------------------------------------------------------
 
 fn c18_cfg(src: Metric, dim: usize, targets: &[Metric], depth: usize) -> TxnCfg {
+    c18_cfg_from(src, dim, targets, depth, false)
+}
+
+/// `populated`: the index under test already holds four items (more than a bucket) and a forest
+/// built with the automatic tree count when the exploration starts, so that the bounded depth is
+/// spent after the metric change (change, then build without any pending update, ...).
+fn c18_cfg_from(src: Metric, dim: usize, targets: &[Metric], depth: usize, populated: bool) -> TxnCfg {
     // the index under test sits between two populated, built neighbours
     let (lo, mid, hi) = (6u16, 7u16, 8u16);
     let vecs = plain_vectors(dim);
-    let prefix = vec![
+    let mut prefix = vec![
         Action::Add { index: lo, id: 0, vec: vecs[0].clone() },
         Action::Add { index: lo, id: u32::MAX, vec: vecs[1].clone() },
         Action::Add { index: lo, id: 3, vec: vecs[2].clone() },
@@ -498,6 +516,18 @@ fn c18_cfg(src: Metric, dim: usize, targets: &[Metric], depth: usize) -> TxnCfg 
         build(hi, Some(2), Some(1), None),
         Action::Commit,
     ];
+    if populated {
+        prefix.pop();
+        for (k, id) in [0u32, 1, 2, 5, u32::MAX].iter().enumerate() {
+            let mut v = vecs[k % 3].clone();
+            if k >= 3 {
+                v[0] = (f32::from_bits(v[0]) + 1.0).to_bits();
+            }
+            prefix.push(Action::Add { index: mid, id: *id, vec: v });
+        }
+        prefix.push(build(mid, None, None, None));
+        prefix.push(Action::Commit);
+    }
     let mut menu = Vec::new();
     for (k, id) in [0u32, 1, 2, u32::MAX].iter().enumerate() {
         menu.push(Action::Add { index: mid, id: *id, vec: vecs[k % 3].clone() });
@@ -517,7 +547,7 @@ fn c18_cfg(src: Metric, dim: usize, targets: &[Metric], depth: usize) -> TxnCfg 
         max_depth: depth,
         obs: TxnObs { store: true, staleness: true, isolation: true, forest: true, metric_change: true, ..Default::default() },
         probe_ids: vec![0, 1, 2, u32::MAX],
-        label: format!("{}-d{dim}-depth{depth}", src.short()),
+        label: format!("{}-d{dim}-depth{depth}{}", src.short(), if populated { "-populated" } else { "" }),
     }
 }
 
@@ -529,6 +559,7 @@ pub fn c18(tier: Tier) -> i32 {
         Tier::Quick => {
             for m in M7 {
                 runs.push((c18_cfg(m, 3, &M7, 5), caps(6)));
+                runs.push((c18_cfg_from(m, 3, &M7, 3, true), caps(6)));
             }
         }
         Tier::Thorough => {
@@ -536,10 +567,12 @@ pub fn c18(tier: Tier) -> i32 {
                 runs.push((c18_cfg(m, 3, &M7, 6), caps(150)));
                 runs.push((c18_cfg(m, 65, &M7, 5), caps(60)));
                 runs.push((c18_cfg(m, 1, &M7, 5), caps(60)));
+                runs.push((c18_cfg_from(m, 3, &M7, 4, true), caps(60)));
+                runs.push((c18_cfg_from(m, 65, &M7, 3, true), caps(60)));
             }
         }
     }
     run_txn(&mut report, "C18", runs);
-    report.cov("oracle", "every history of adds, overwrites, deletes, two build configurations and prepare_changing_distance to each of the 7 metrics (all 49 ordered pairs, chains included) on an index between two built neighbours: after the change the items and vectors equal the model as representable (API and raw leaf bytes), no tree or metadata key of the index remains, the index needs a build and no longer opens, the neighbours are byte-identical; same metric => dump unchanged; after the next build the structure oracle S and the exact-search oracle X hold under the new metric and opening under another metric fails");
+    report.cov("oracle", "every history of adds, overwrites, deletes, two build configurations and prepare_changing_distance to each of the 7 metrics (all 49 ordered pairs, chains included) on an index between two built neighbours, starting from an empty index and from one that already holds a five-item forest built with the automatic tree count: after the change the items and vectors equal the model as representable (API and raw leaf bytes), no tree or metadata key of the index remains, the index needs a build and no longer opens, the neighbours are byte-identical; same metric => dump unchanged; after the next build the structure oracle S and the exact-search oracle X hold under the new metric and opening under another metric fails");
     report.finish()
 }
